@@ -187,7 +187,7 @@ def main(argv=None):
         from vx import witness
         try:
             d, tried = witness.search(pid, None, a.repo_src, seed)
-            bounded_runs.append(dict(kind='differential replay corpus vs reference semantics (vx/oracle.py)', cases=tried, bound='fixed corpus of vx/corpus.py (enumerated operator pairs, corruptions of 6 seed programs, edge numerics, conversion boundaries, registration scripts)',
+            bounded_runs.append(dict(kind='differential replay corpus vs reference semantics (vx/oracle.py)', cases=tried, bound='fixed corpus of vx/corpus.py plus its seed-0 random cases (enumerated operator pairs, long chains, corruptions of valid programs, every arithmetic/bit operator over the integer-range edges, non-plain number literals, programs with observable and failing context functions, conversion boundaries, registration / override / reuse scripts); the number of cases run is in `cases`',
                                      reason=[s_[1] + ': ' + s_[2][:160] for s_ in soft], found=bool(d)))
             if d: soft_viol.append(d)
             else: undecided += ['%s: %s is outside the verifier\'s reach (%s) and the bounded stand-in (%d cases) found no failing input' % (s_[0], s_[1], s_[2][:120], tried) for s_ in soft]
